@@ -26,6 +26,7 @@ type Clause struct {
 	Line   int
 	Reveal []string
 	Uses   []string
+	Unbound string // non-empty: the clause does not bind to the current code (contract drift)
 }
 
 type ModLoc struct {
@@ -58,6 +59,7 @@ type FuncContract struct {
 	SafetyProp string
 	FrameProp  string
 	Reveal     []string
+	Unreachable []string
 }
 
 type SpecFunc struct {
@@ -258,6 +260,10 @@ func parseSpecFile(path string) (*SpecFile, error) {
 				lastLemma.Reveal = append(lastLemma.Reveal, names...)
 			} else if cur != nil {
 				cur.Reveal = append(cur.Reveal, names...)
+			}
+		case "unreachable":
+			if cur != nil {
+				cur.Unreachable = append(cur.Unreachable, strings.TrimSpace(rest))
 			}
 		case "uses":
 			for _, n := range strings.Split(rest, ",") {
@@ -483,7 +489,7 @@ var specBuiltins = map[string]string{
 	"isIntegral": "V_isIntegral", "isFinite": "V_isFinite", "toReal": "V_toReal", "hasPrefix": "V_hasPrefix", "hasSuffix": "V_hasSuffix",
 	"elemsfresh": "V_elemsfresh", "sameslice": "V_sameslice", "realOfInt": "V_realOfInt", "real": "V_real",
 	"rlt": "V_rlt", "rle": "V_rle", "req": "V_req", "isNaN": "V_isNaN", "fresherThan": "V_fresherThan",
-	"concat": "V_concat", "strOfSeq": "V_strOfSeq", "payloadRef": "V_payloadRef", "cap": "cap",
+	"concat": "V_concat", "sliceprefix": "V_sliceprefix", "strOfSeq": "V_strOfSeq", "payloadRef": "V_payloadRef", "cap": "cap",
 }
 
 func translateSpecExpr(src string) (string, error) {
@@ -721,6 +727,7 @@ func V_fresh(x any) bool { return true }
 func V_elemsfresh(x any) bool { return true }
 func V_fresherThan(x any, y any) bool { return true }
 func V_sameslice(x, y any) bool { return true }
+func V_sliceprefix(x, y any) bool { return true }
 func V_allocated(x any) bool { return true }
 func V_unchanged(x any) bool { return true }
 func V_isnil(x any) bool { return true }
